@@ -3,7 +3,7 @@ import ast
 import random
 import re
 
-from harness import common, diffexec, gen_assign, gen_cf, gen_lit, gen_order, gen_scope, hostrun, propkit
+from harness import common, diffexec, features, gen_assign, gen_cf, gen_class, gen_lit, gen_order, gen_place, gen_scope, hostrun, propkit
 from harness.props import c07
 
 VFILES = ["theories/Unparse.v", "theories/StrLit.v", "theories/Compat.v"]
@@ -40,6 +40,7 @@ x = _O('x'); y = _O('y'); z = _O('z'); w = 5; p = 2; q = 1; a = 1; b = 2; c = 1;
 
 WITNESSES = {   # 3.8-valid scripts for the listed known findings (re-confirmed on every run)
     "K-astunparse-pep701-quotes": "d = {'k': 1}\nprint(f\"{d['k']}\")\n",
+    "K-astunparse-star-index": "m = {(1, 2, 3): 't'}\nb = [2, 3]\nprint(m[(1, *b)], m[(*b,)] if (*b,) in m else 0)\n",
     "K-fstring-nesting-depth3": "print(f'''{f\"{'a'}\"}''')\n",
     "K-fstring-field-backslash": "print(f\"\"\"{'''a\nb'''}\"\"\")\nprint(f\"\"\"{\"a'b\" + 'c\"d'}\"\"\")\n",
 }
@@ -70,6 +71,20 @@ def canon_text(t):
             seen[key] = f"__ol_{m.group(1)}_{len(seen)}"
         return seen[key]
     return OL.sub(sub, t)
+
+
+def star_index(src):
+    """the script subscripts with a (parenthesised) tuple that has a starred element"""
+    try:
+        tree = ast.parse(src)
+    except (SyntaxError, ValueError, RecursionError):
+        return False
+    for n in ast.walk(tree):
+        if isinstance(n, ast.Subscript):
+            sl = n.slice
+            if isinstance(sl, ast.Tuple) and any(isinstance(e, ast.Starred) for e in sl.elts):
+                return True
+    return False
 
 
 def fstring_depth(src):
@@ -111,6 +126,13 @@ def programs(chk):
     def add(kind, src):
         out.append(src)
         dist[kind] = dist.get(kind, 0) + 1
+    for name, src in features.PROGRAMS.items():
+        add("feature scripts", src)
+    allc = list(gen_class.all_programs())
+    for key, p in (rng.sample(allc, 600) if big else rng.sample(allc, 25)):
+        add("class programs", p)
+    for _, p in gen_place.function_placements() + gen_place.class_placements():
+        add("header placements", p)
     for _ in range(200 if big else 25):
         b, pl = gen_cf.random_skeleton(rng, 3)
         bits = [rng.random() < 0.6 for _ in range(60)]
@@ -209,6 +231,9 @@ def run(chk, build, replay=None):
                 depth, needs = max(d1, d2), (n1 or n2)
                 if tr[0] == "ast.unparse" and tuple(int(x) for x in hv.split(".")[:2]) >= (3, 12) and depth >= 2:
                     cls = "K-astunparse-pep701-quotes"
+                elif (tr[0] == "ast.unparse" and st == "text-syntax" and tuple(int(x) for x in hv.split(".")[:2]) >= (3, 11)
+                      and tuple(int(x) for x in rv.split(".")[:2]) < (3, 11) and star_index(src)):
+                    cls = "K-astunparse-star-index"
                 elif depth >= 3:
                     cls = "K-fstring-nesting-depth3"
                 elif needs:
